@@ -561,17 +561,17 @@ func init() {
 			cfgs := []string{"flushy/bytewise", "rot/bytewise", "bigbatch/bytewise"}
 			hist := append([][]string{}, c04Long...)
 			quick := c.Tier == "quick"
-			depth := 2
+			depth := 3
 			if !quick {
-				depth = 3
-				cfgs = append(cfgs, "default/bytewise", "nobig/bytewise")
+				depth = 4
+				cfgs = append(cfgs, "default/bytewise", "nobig/bytewise", "deep/bytewise")
 			}
 			for _, s := range genSeqs(c08Alpha, depth) {
 				if len(s) > 0 {
 					hist = append(hist, s)
 				}
 			}
-			runFaultCheck(c, "C08", cfgs, hist, quick, !quick)
+			runFaultCheck(c, "C08", cfgs, hist, false, !quick)
 			c.Coverage["rule"] = "per history (all sequences up to the depth over the alphabet plus 6 long histories, per configuration): one run per fault plan = k-th operation of each (kind, file type) seen in the fault-free baseline x {fail once, fail 3x, half-written write, performed-but-reported-failed, flipped read byte}; thorough adds ordered pairs of single faults on the short histories; oracle: contents while running and after clean close + fault-free reopen must be explained by all acknowledged writes plus some subset of the failed ones; distinct_nontrivial = distinct (history, plan) whose error surfaced to a client call"
 			c.Coverage["alphabet"] = c08Alpha
 			c.Assume = []string{"faults start after the initial Open", "the history runs on the default schedule; timers on the virtual clock (120 virtual seconds of settling after the history)", "a reopen failure after a half-written record is attributed to the fault (durable bytes damaged) and not reported"}
